@@ -14,19 +14,19 @@ def inSet : Str → Char → Bool
   | a :: rest, c => a == c || inSet rest c
   | [], _ => false
 
-/-- after a '[': `(negated, set body, text after the closing ']')`.
-    The first member may itself be ']'; a set needs at least one member. -/
-def readSet (p : Str) : Option (Bool × Str × Str) :=
-  let (neg, q) := match p with
-    | '!' :: q => (true, q)
-    | q => (false, q)
-  match q with
+/-- the members of a set and the text after its closing ']': the first member may itself be
+    ']'; a set needs at least one member -/
+def readSetBody : Str → Option (Str × Str)
   | [] => none
   | first :: q' =>
-    let body := q'.takeWhile (· != ']')
     match q'.dropWhile (· != ']') with
-    | ']' :: after => some (neg, first :: body, after)
+    | ']' :: after => some (first :: q'.takeWhile (· != ']'), after)
     | _ => none
+
+/-- after a '[': `(negated, set body, text after the closing ']')` -/
+def readSet : Str → Option (Bool × Str × Str)
+  | '!' :: q => (readSetBody q).map fun ba => (true, ba.1, ba.2)
+  | q => (readSetBody q).map fun ba => (false, ba.1, ba.2)
 
 /-- is the pattern a well-formed glob (every '[' opens a closed, non-empty set) -/
 def globWF (fuel : Nat) (p : Str) : Bool :=
